@@ -179,7 +179,7 @@ def check_case(case):
             if not d <= env_:
                 rcl = row_class(ab[xi][0] - ab[xi][1], hq_)
                 v.fail(
-                    f"C08:limit:{proc_}:{kind}:{hv_}:order{o}:{rcl}{eta_region(x, xi)}",
+                    f"C08:limit:{proc_}:{kind}:{hv_}:order{o}:{rcl}{eta_region(x, xi)}{'@xi>=1e6' if xi >= 1e6 else ''}",
                     f"{name} ({meta['process']}, {case['h']} massive, m={m}) x={x}: |FFNS-FFN0|/S = {d:.3e} at Q2/m2={xi:.3g}, order {o}; allowed {env_:.3e} "
                     f"(prefactor {pref:.3g}); profile { {f'{k:.0e}': float(f'{val:.2e}') for k, val in ds.items()} }",
                 )
